@@ -51,7 +51,13 @@ func NewEnc(w *World) *Enc {
 
 func shortQual(p *types.Package) string { return p.Name() }
 
-func typeStr(t types.Type) string { return types.TypeString(t, shortQual) }
+func typeStr(t types.Type) string {
+	t = types.Unalias(t)
+	if it, ok := t.(*types.Interface); ok && it.NumMethods() == 0 {
+		return "interface{}"
+	}
+	return types.TypeString(t, shortQual)
+}
 
 func (e *Enc) mangle(s string) string {
 	if m, ok := e.mangleMap[s]; ok {
@@ -173,27 +179,59 @@ func (e *Enc) structSel(t types.Type, i int) string {
 	return fmt.Sprintf("%s__%d", e.SortOf(t), i)
 }
 
-// HeapFor returns the heap array name for a leaf Go type.
+// HeapFor returns the heap array holding cells of leaf Go type t that are NOT struct fields:
+// slice/array elements, address-taken locals, package-level variables.
 func (e *Enc) HeapFor(t types.Type) string {
 	if _, ok := t.Underlying().(*types.Struct); ok {
 		panic("HeapFor on struct type " + t.String())
 	}
-	var key string
-	switch u := t.Underlying().(type) {
-	case *types.Basic:
-		// named basic types share the heap of their underlying kind only if identical name
-		key = typeStr(t)
-		_ = u
-	default:
-		key = typeStr(t)
-	}
-	name := "H_" + e.mangle(key)
+	name := "H_e_" + e.mangle(typeStr(t))
 	if _, ok := e.heaps[name]; !ok {
 		e.heaps[name] = e.SortOf(t)
 		e.heapTypes[name] = t
 		e.heapOrder = append(e.heapOrder, name)
 	}
 	return name
+}
+
+// FieldHeap returns the heap array of field i of struct type st (field-split heap): every object
+// or sub-object of type st keeps that field in this array, at fldloc(location of the struct, i).
+func (e *Enc) FieldHeap(st types.Type, i int) string {
+	s := st.Underlying().(*types.Struct)
+	f := s.Field(i)
+	name := "H_" + e.mangle(typeStr(st)+"."+f.Name())
+	if _, ok := e.heaps[name]; !ok {
+		e.heaps[name] = e.SortOf(f.Type())
+		e.heapTypes[name] = f.Type()
+		e.heapOrder = append(e.heapOrder, name)
+	}
+	return name
+}
+
+// leaf: one non-struct cell inside a value of some type: the field steps leading to it, its type, its heap
+type leaf struct {
+	steps []int
+	t     types.Type
+	heap  string
+}
+
+// Leaves enumerates the leaf cells of a value of type t stored at some location.
+func (e *Enc) Leaves(t types.Type) []leaf {
+	if s, ok := t.Underlying().(*types.Struct); ok {
+		var out []leaf
+		for i := 0; i < s.NumFields(); i++ {
+			ft := s.Field(i).Type()
+			if _, isStruct := ft.Underlying().(*types.Struct); isStruct {
+				for _, l := range e.Leaves(ft) {
+					out = append(out, leaf{append([]int{i}, l.steps...), l.t, l.heap})
+				}
+			} else {
+				out = append(out, leaf{[]int{i}, ft, e.FieldHeap(t, i)})
+			}
+		}
+		return out
+	}
+	return []leaf{{nil, t, e.HeapFor(t)}}
 }
 
 // TypeConst returns the Type constant for a concrete Go type.
@@ -305,6 +343,15 @@ func (e *Enc) Decls() string {
 	for _, d := range e.extraDecls {
 		b.WriteString(d)
 		b.WriteString("\n")
+	}
+	if e.declared["comparable_t"] {
+		for _, tn := range e.typeOrder {
+			if types.Comparable(e.typeConsts[tn]) {
+				fmt.Fprintf(&b, "(assert (comparable_t %s))\n", tn)
+			} else {
+				fmt.Fprintf(&b, "(assert (not (comparable_t %s)))\n", tn)
+			}
+		}
 	}
 	return b.String()
 }
